@@ -40,11 +40,11 @@ pub struct Parsed {
 
 /// Parse a whole text the way the shell's read-eval loop does (without executing).
 pub fn parse_all(text: &str) -> Parsed {
-    parse_all_with(text, &yash_syntax::alias::EmptyGlossary)
+    parse_all_with(text, &yash_syntax::alias::EmptyGlossary, 0)
 }
 
 /// the same with an alias glossary
-pub fn parse_all_with(text: &str, aliases: &dyn yash_syntax::alias::Glossary) -> Parsed {
+pub fn parse_all_with(text: &str, aliases: &dyn yash_syntax::alias::Glossary, extra_lines: usize) -> Parsed {
     let lines: Vec<String> = text.split_inclusive('\n').map(|s| s.to_string()).collect();
     let nlines = lines.len();
     let calls = Rc::new(Cell::new(0));
@@ -59,7 +59,8 @@ pub fn parse_all_with(text: &str, aliases: &dyn yash_syntax::alias::Glossary) ->
     let mut guard = 0;
     loop {
         guard += 1;
-        if guard > nlines + 10 {
+        // (alias values may contain newlines: the caller says how many more command lines may arise)
+        if guard > nlines + 10 + extra_lines {
             error = Some("harness: too many command lines".into());
             break;
         }
